@@ -190,6 +190,10 @@ class FakeDongle:
             raise IOError('No such device (it may have been disconnected)')
         if self.air.faults.flag('usb_read_err'):
             self.pending = None
+            if self.results:
+                # the driver never sees the outcome of this transfer
+                t, acked, tries, frame, payload = self.results[-1]
+                self.results[-1] = (t, None, tries, frame, payload)
             raise FakeUSBError('simulated USB read error')
         if self.pending is None:
             raise FakeUSBError('read without a transfer')
